@@ -172,7 +172,12 @@ HeadersBase::KV* HeadersBase::kv_add(KV kv) {
 
 int HeadersBase::parse() {
     Parser p({m_buf, m_buf_size});
-    while(p[0] != '\r') {
+    while(true) {
+        // a line without ':' lets the scan run to the end of the received
+        // bytes; p[0] would then be the byte after them
+        if (p.is_done())
+            LOG_ERROR_RETURN(0, -1, "header section not terminated");
+        if (p[0] == '\r') break;
         auto k = p.extract_until_char(':');
         p.skip_chars(' ', true);
         auto v = p.extract_until_char('\r');
